@@ -122,6 +122,12 @@ func vh_SAE() {
 		vAssert(f.matchIndex > match0, "C01.match-monotone")
 		vAssert(f.nextIndex > f.matchIndex, "INV.match<next(N7)")
 	}
+	// C15 (progress): a successful reply of the current term, processed while still leader, is recorded
+	if !rpcFailed && resp.Success && mid.state == Leader && mid.term == sent.Term && post.state == Leader {
+		m := sent.PrevLogIndex + uint64(len(sent.Entries))
+		vAssert(f.matchIndex >= m || f.matchIndex == match0 && m <= match0, "C15.successful-reply-advances-matchIndex")
+		vAssert(f.nextIndex >= m+1, "C15.successful-reply-advances-nextIndex")
+	}
 	if f.nextIndex != next0 && f.matchIndex == match0 {
 		vCover("next-backed-off")
 		vAssert(vAnd(!resp.Success, f.nextIndex == resp.Index), "C15.next-follows-hint")
